@@ -204,11 +204,24 @@ func genAllOfFamily(r vlib.Rnd) []byte {
 			fmt.Fprintf(&sb, " // {%s}", strings.Join(rr, ", "))
 		}
 		sb.WriteString("\n")
+		var props []string
 		if !vlib.Chance(r, 1, 3) {
-			fmt.Fprintf(&sb, "    \"p%d\": %s\n", i, vlib.Pick(r, []string{"1", "\"s\"", "[1]", "{}", fmt.Sprintf("@t%d", r.Intn(n))}))
+			props = append(props, fmt.Sprintf("    \"p%d\": %s", i, vlib.Pick(r, []string{"1", "\"s\"", "[1]", "{}", fmt.Sprintf("@t%d", r.Intn(n))})))
+		}
+		// a property whose key is described by a user type (key shortcut), and a literal property of the same spelling
+		if vlib.Chance(r, 1, 4) {
+			props = append(props, "    @key : 1")
+		}
+		if vlib.Chance(r, 1, 4) {
+			props = append(props, "    \"@key\": 2")
+		}
+		sb.WriteString(strings.Join(props, ",\n"))
+		if len(props) > 0 {
+			sb.WriteString("\n")
 		}
 		sb.WriteString("  }\n\n")
 	}
+	sb.WriteString("TYPE @key\n  \"abc\"\n\n")
 	fmt.Fprintf(&sb, "POST /a/{id}\n  Request @t%d\n  200 @t%d\n  404 [@t%d]\n", r.Intn(n), n-1, r.Intn(n))
 	if vlib.Chance(r, 1, 3) {
 		fmt.Fprintf(&sb, "  Path\n    { // {allOf: \"@t%d\"}\n      \"id\": 1\n    }\n", r.Intn(n))
